@@ -49,6 +49,8 @@ partial def feOf : SX → Option FE
   | .node "inc" [o, .node p []] => do pure (.incr (← feOf o) p)
   | .node "pro" [a] => do pure (.protoOf (← feOf a))
   | .node "rgx" [] => some .regex
+  | .node "fnc" [.node "fn" [.node "_" [], .node "PS" [], .node "V" vs, .node "D" ds, .node "S" ss]] => do
+      pure (.fnCtor (.func none [] (names vs) (← declsOf ds) (← fssOf ss)))
   | .node "cnd" [t, a, b] => do pure (.cond (← feOf t) (← feOf a) (← feOf b))
   | .node "dfx" [o, .node p [], e] => do pure (.defFix (← feOf o) p (← feOf e))
   | .node "dro" [o, .node p [], e] => do pure (.defRO (← feOf o) p (← feOf e))
@@ -127,6 +129,18 @@ def handle (ws : List String) : Option String :=
         else some (model ++ " " ++ spec ++ " -")
       | _, _ => some "bad-op"
     | _, _ => some "bad-op"
+  | ["fn2", fuel, prog1, prog2] =>
+    match fuel.toNat?, parseSX prog1.toList, parseSX prog2.toList with
+    | some n, some (.node "FP" [.node "V" vs1, .node "D" ds1, .node "S" ss1], []),
+              some (.node "FP" [.node "V" vs2, .node "D" ds2, .node "S" ss2], []) =>
+      match declsOf ds1, fssOf ss1, declsOf ds2, fssOf ss2 with
+      | some d1, some s1, some d2, some s2 =>
+        let spec := out (runProgram2 n (names vs1) d1 s1 (names vs2) d2 s2)
+        let model := FnM.out (FnM.runProgram2 n (names vs1) d1 s1 (names vs2) d2 s2)
+        if model != spec then some (model ++ " MODEL-NE-SPEC[" ++ spec ++ "] -")
+        else some (model ++ " " ++ spec ++ " -")
+      | _, _, _, _ => some "bad-op"
+    | _, _, _ => some "bad-op"
   | _ => none
 
 end OttoVerif.C01.FnDriver
